@@ -107,7 +107,7 @@ namespace fastscapelib
                 {
                     receivers(i, 0) = i;
                     dist2receivers(i, 0) = 0;
-                    slope_max = std::numeric_limits<double>::min();
+                    slope_max = 0.0;
 
                     if (graph_impl.is_masked(i) || graph_impl.is_base_level(i))
                     {
@@ -116,11 +116,12 @@ namespace fastscapelib
 
                     for (auto n : grid.neighbors(i, neighbors))
                     {
-                        if (!graph_impl.is_masked(n.idx))
+                        if (!graph_impl.is_masked(n.idx)
+                            && elevation.flat(i) > elevation.flat(n.idx))
                         {
                             slope = (elevation.flat(i) - elevation.flat(n.idx)) / n.distance;
 
-                            if (slope > slope_max)
+                            if (slope > slope_max || receivers(i, 0) == i)
                             {
                                 slope_max = slope;
                                 receivers(i, 0) = n.idx;
@@ -161,7 +162,7 @@ namespace fastscapelib
                     {
                         receivers(i, 0) = i;
                         dist2receivers(i, 0) = 0;
-                        slope_max = std::numeric_limits<double>::min();
+                        slope_max = 0.0;
 
                         if (graph_impl.is_masked(i) || graph_impl.is_base_level(i))
                         {
@@ -170,11 +171,12 @@ namespace fastscapelib
 
                         for (auto n : grid.neighbors(i, neighbors))
                         {
-                            if (!graph_impl.is_masked(n.idx))
+                            if (!graph_impl.is_masked(n.idx)
+                                && elevation.flat(i) > elevation.flat(n.idx))
                             {
                                 slope = (elevation.flat(i) - elevation.flat(n.idx)) / n.distance;
 
-                                if (slope > slope_max)
+                                if (slope > slope_max || receivers(i, 0) == i)
                                 {
                                     slope_max = slope;
                                     receivers(i, 0) = n.idx;
